@@ -325,9 +325,32 @@ def resync_plan(rng: random.Random, cfg, kind: str, nsuffix: int, big: bool = Fa
         it = item_frame(rng, maxinfo=None if big else 80, sizes=[2, 3, 5, 8, 16, 40] + ([400, 900] if big else []), tag=j)
         if len(it["info"]) < 2:
             it["info"] = [j >> 8 & 0xFF, j & 0xFF]
+        if not cfg[0]:
+            noflag(rng, it)
         plan.append(it)
         plan.append(item_flags(rng.choice([1, 1, 2])))
     return plan
+
+
+def noflag(rng: random.Random, it: dict):
+    """Make a frame item flag-free in every octet (non-stuffing C16 suffix, DESIGN 8-9)."""
+    for _ in range(200):
+        it["info"] = [b if b != FLAG else 0x7F for b in it["info"]]
+        it["dst"] = [b if b != FLAG else 0x7C for b in it["dst"]]
+        it["src"] = [b if b != FLAG else 0x7C for b in it["src"]]
+        if it["ctrl"] == FLAG:
+            it["ctrl"] = 0x13
+        if FLAG not in item_bytes(it):
+            return
+        # a check sequence (or the length octet) happens to be 0x7E: perturb and retry
+        f = item_bytes(it)
+        hl = 2 + len(it["dst"]) + len(it["src"]) + 3
+        if FLAG in f[:hl] or not it["info"]:
+            it["ctrl"] = rng.choice([c for c in range(256) if c != FLAG])
+            if f[1] == FLAG and it["info"]:
+                it["info"] = it["info"] + [1]
+        else:
+            it["info"][-1] = rng.choice([c for c in range(256) if c != FLAG])
 
 
 # ----------------------------------------------------------------------------- canaries
